@@ -1269,6 +1269,13 @@ class ConnectionBase(object):
             self.stats.dropped += 1
             return False
 
+        # a datagram older than the receive window cannot be tested for
+        # duplication: drop it like a duplicate
+        current = self.bitfield_pkt.current_seqnum
+        if current != 0 and current.diff(pkt.hdr.seq) > self.bitfield_pkt.nbits:
+            self.stats.dropped += 1
+            return False
+
         try:
             # TODO: log warning for packet flooding
             # if inserting dropped unacked bits then those packets will time out
